@@ -20,7 +20,7 @@ impl Property for Prop {
         "C16"
     }
     fn rule(&self) -> &'static str {
-        "histories: a receiver state (15 recipes incl. unfinished trains on every slot, full / empty free list, remembered label, aliasing ids) is driven through a seeded prefix of 1..200 hostile packets (random bytes, structured headers, mutated valid packets, wrong CRC / length / frag id, unfinished trains); then: reset label memory; provision one buffer (Ok or 'free list full' both fine); probe 1 = valid complete packet with an explicit label (delivered buffer given back); probe 2 = valid fragmented PDU of 2..5 fragments on a seeded fragment id (half of them ids with an unfinished train or aliasing one; all 256 reachable) and label kind, built by the real encapsulator (or hand-made when the sender is unusable). A history is conclusive when the prefix did not panic (a panic is C05's finding); non-trivial = conclusive with a prefix of at least 1 packet that was not all padding; fingerprint = hash(state, prefix bytes, probe parameters)."
+        "histories: a receiver state (15 recipes (and, one history in 64, a 256-slot memory with an unfinished train on every fragment id) incl. unfinished trains on every slot, full / empty free list, remembered label, aliasing ids) is driven through a seeded prefix of 1..200 hostile packets (random bytes, structured headers, mutated valid packets, wrong CRC / length / frag id, unfinished trains); then: reset label memory; provision one buffer through the decapsulator or directly through its public memory field (Ok or 'free list full' both fine); probe 1 = valid complete packet with an explicit label (delivered buffer given back); probe 2 = valid fragmented PDU of 2..5 fragments on a seeded fragment id (half of them ids with an unfinished train or aliasing one; all 256 reachable) and label kind, built by the real encapsulator (or hand-made when the sender is unusable). A history is conclusive when the prefix did not panic (a panic is C05's finding); non-trivial = conclusive with a prefix of at least 1 packet that was not all padding; fingerprint = hash(state, prefix bytes, probe parameters)."
     }
     fn gens(&self, cx: &Cx) -> Vec<Gen> {
         vec![Gen { name: "histories", count: cx.n(30_000, 2_000_000), exhaustive: false }]
@@ -34,7 +34,18 @@ impl Property for Prop {
             rep.count("c16.no-state");
             return;
         }
-        let st = states[(key as usize) % states.len()].clone();
+        // one history in 64 starts from the heavy state: an unfinished train on every one of the 256 ids
+        let st = if key % 64 == 63 {
+            match all_ids_open_state() {
+                Some(s) => s,
+                None => {
+                    rep.count("c16.heavy-state-not-built");
+                    return;
+                }
+            }
+        } else {
+            states[(key as usize) % states.len()].clone()
+        };
         if st.slots == 0 {
             // a zero-slot memory cannot hold any fragment context: probe 2 is impossible by construction
             rep.count("c16.skipped-zero-slots");
@@ -69,7 +80,12 @@ impl Property for Prop {
                 _ => {}
             }
             if rng.chance(1, 12) {
-                let _ = d.provision_storage(vec![0u8; st.pdu_size].into_boxed_slice());
+                if rng.chance(1, 2) {
+                    let _ = d.provision_storage(vec![0u8; st.pdu_size].into_boxed_slice());
+                } else {
+                    use dvb_gse_rust::gse_decap::GseDecapMemory;
+                    let _ = d.memory.provision_storage(vec![0u8; st.pdu_size].into_boxed_slice());
+                }
             }
         }
         if !conclusive {
@@ -79,7 +95,14 @@ impl Property for Prop {
         rep.count("c16.conclusive");
         // ---- recovery protocol
         d.reset_last_label();
-        let _ = d.provision_storage(vec![0u8; st.pdu_size].into_boxed_slice());
+        // the caller makes one buffer available, through the decapsulator or directly through its (public) memory
+        if rng.chance(1, 2) {
+            let _ = d.provision_storage(vec![0u8; st.pdu_size].into_boxed_slice());
+        } else {
+            use dvb_gse_rust::gse_decap::GseDecapMemory;
+            let _ = d.memory.provision_storage(vec![0u8; st.pdu_size].into_boxed_slice());
+            rep.count("c16.provisioned-through-memory-field");
+        }
         let cls = st.name;
         // probe 1: complete packet with explicit label, PDU within the configured size
         let plen1 = rng.below(st.pdu_size + 1);
@@ -98,7 +121,12 @@ impl Property for Prop {
             }
         }
         if let Ok(Ok((DecapStatus::CompletedPkt(b, _), _))) = r1 {
-            let _ = d.provision_storage(b);
+            if rng.chance(1, 2) {
+                let _ = d.provision_storage(b);
+            } else {
+                use dvb_gse_rust::gse_decap::GseDecapMemory;
+                let _ = d.memory.provision_storage(b);
+            }
         }
         // probe 2: fragmented PDU on any fragment id and label kind
         // half of the probes land on a fragment id that is likely to have an unfinished train (the state's
